@@ -100,7 +100,10 @@ impl IDateTime {
             + (self.time.to_second().second as i64);
         let mut nanosecond = self.time.subsec_nanosecond;
         second -= offset.second as i64;
-        if epoch_day < 0 && nanosecond != 0 {
+        // N.B. Seconds and nanoseconds must have the same sign. Whether a
+        // fix-up is needed depends on the sign of the instant (after applying
+        // the offset), and not on the sign of the civil date.
+        if second < 0 && nanosecond != 0 {
             second += 1;
             nanosecond -= 1_000_000_000;
         }
